@@ -456,6 +456,12 @@ func runHs13FScript(idx int, sc *hs13fScript) hsResult { //nolint:cyclop,gocogni
 					side, estB, stB, flB, retxB = "s", sestB, sstB, sflB, sretxB
 				}
 				n := h.emitted[side] - emB[side]
+				// every flight of this handshake (ClientHello, ServerHello..Finished, client Finished) is retransmittable by
+				// design, and the server's is never acknowledged completely (its ServerHello travels in epoch 0): whatever
+				// the implementation's own flag says, a waiting endpoint re-sends on its timer
+				if stB == "Waiting" && flB != "F0" {
+					retxB = true
+				}
 				switch {
 				case stB == "Waiting" && retxB && flB != "F0":
 					if n == 0 {
